@@ -306,6 +306,8 @@ repairs before they were committed.
   statements / conjuncts / declarations, flipped comparisons, inverted `if/else`, expanded `+=`, literal for const,
   `f64::max` call form): **0 false alarms**, 23 verify, 2 undecided (`f64::max(a, b)` call form has no rule; an inverted
   `if/else` whose both branches carry annotations loses an anchor).
+* **Rename campaign** (`tools/renames.py`, `harmless/RENAMES.json`): every `let`-bound local of every function under contract renamed
+  (137 single renames): 94 verify unchanged (the merge follows consistent renames of locals, §2.1), 43 undecided, **0 alarms**.
 * **Independent refactors** (`tools/harmless2.py`, `harmless/`: 12 behaviour-preserving refactors of 15–35 changed lines each,
   written by sub-agents that saw only the source file and were asked for an ordinary maintainer's tidy-up — renamed locals,
   loops turned into `find`/`matches!`, hoisted values, extracted helpers, inverted branches; every public function of the crate
